@@ -148,5 +148,11 @@ for (t, ctxs, st) in PART:
                 'partial_ctx::<%s, %d, %d>([%s], %d)' % (t, len(bs), k, arr, st), d=short, kind='part', n=len(bs), s=st, sym=bs.count(None), ctx=c, k=k)
 out.append('}')
 dst = sys.argv[1] if len(sys.argv) > 1 else 'src/harness_list.rs'
+# optional second argument: a file with harness names, one per line - only those are emitted (Kani generates one goto
+# binary per harness in the crate, so compiling all ~1500 of them costs minutes and gigabytes); the index stays complete
+if len(sys.argv) > 2:
+    keep = set(l.strip() for l in open(sys.argv[2]) if l.strip())
+    out = [l for l in out if not l.startswith('    ') or l.strip().split(' ')[0] in keep]
 open(dst, 'w').write('\n'.join(out) + '\n')
-json.dump(index, open(dst.replace('harness_list.rs', 'harness_index.json'), 'w'), indent=0)
+import os
+json.dump(index, open(os.path.join(os.path.dirname(os.path.abspath(dst)), 'harness_index.json'), 'w'), indent=0)
